@@ -44,6 +44,11 @@ CLAIMED = {
    text="Unbounded Coq theorems: for every build profile, every client configuration (offered protocols, authenticator present or not, restricted admin, either HashMap order of the channel joins) and every chunked stream of server bytes, the model of x224::Client::connect + mcs::Client::connect + sec::connect/license::client_connect (as Connector::connect composes them) returns Ok or Err, never Panic or Spin, and sizes no buffer from the wire above 2*65535 bytes; the same for each parser entry (connection confirm, connect-response/GCC, attach and join confirms, security header + licence) on all byte strings. External code (yasna BER parser, TLS handshake, CredSSP) is universally quantified under the assumption that it returns Ok/Err and hands on bytes. The model is tied to /repo on every run by executing the extracted model and the real layer clients AND the public Connector::connect over an in-memory scripted server on the same cases (valid conversation, then every value of every byte, boundary sets of every 16/32-bit field incl. k-1,k for each subtracted k, truncations, extensions, BER length/tag forms, GCC block sets, all byte strings of length <=2 at every parser entry, random corruption; debug and release), diffed line by line, plus an oracle on the implementation (no panic/abort/spin, largest allocation).",
    design_ref="DESIGN.md section 6, C05-C07",
    note="Trusted: Coq kernel (+vm_compute), extraction, OCaml driver, Rust harness + counting allocator, gen/rdpconn.py; layouts and glue hand-written, validated by correspondence. Modelled not verified: yasna (model from source, coq/BerYasna.v), native-tls, CredSSP, HashMap order. KNOWN FINDING C05-yasna-length-overflow: yasna 0.3.2 itself panics on a BER length >= 2^64-pos (both profiles); the theorems hold for the real client only as far as its BER parser does not unwind; refutation lemma C05_ber_oracle_refuted. Four defects (#5 unwrap part, #7, #8, #9) repaired by fix: commits; model is of the repaired code."),
+ "C10": dict(
+   technique="Coq proof (symbolic evaluation of the message interpreter on the four fast-path layouts, induction over the updates of a PDU and over the rectangles of an update, induction over histories) of model callbacks = rectangles of an independent reference encoder; model tied to /repo by differential correspondence and an independent python encoder/oracle",
+   text="Unbounded Coq theorems, both build profiles: for EVERY list of fast-path updates (any number of bitmap updates with any number of rectangles, every value of the seven 16-bit fields and of flags, with the compression header (flags&1, not 0x400), without it, or NO_HDR, any data incl. empty, any non-bitmap update code 0..15 with any bytes as body) encoded by the reference encoder RefFastPath.v (written from MS-RDPBCGR 2.2.9.1.2) whose fields fit their length fields, the model of RdpClient::read in state Data invokes the callback exactly once per rectangle, in wire order, with exactly the transmitted position, dimensions, depth, compression flag and data bytes, returns Ok, leaves the session unchanged and writes nothing; the same for the whole frame in the short and the long fast-path length form and all security-flag values; for every sequence of PDUs and every interleaving with input attempts the history's callbacks are the concatenation in order; non-bitmap updates (well-formed or not, known or unknown code) are transparent; outside the Data state nothing is delivered. Non-vacuity: a six-update PDU evaluated by the kernel gives the three expected callbacks. Tied to /repo on every run by ~620 (thorough ~8200) generated PDU sequences per profile (0-64 rectangles, 0-64 updates, every guard boundary: flags bits, data lengths 0/1/247/248/255/256 with and without header, update size 255/256, frame lengths 0x7f/0x80/0xff/0x100/0x3fff/0x4000/0x7fff, every non-bitmap code with a bitmap-looking body) replayed against the real RdpClient (debug + release) and the extracted model, callbacks compared with what the generator encoded.",
+   design_ref="DESIGN.md section 6, C10",
+   note="Trusted: Coq kernel (+vm_compute on closed terms), extraction, OCaml driver, Rust harness + cfg hooks, hand-written layouts/model validated by correspondence (not generated from source); spec encoder RefFastPath.v and oracle encoder gen/rdp.py are two independent transcriptions of the standard tied by golden bytes only. Scope: unfragmented, uncompressed updates (updateHeader bits 4-7 zero) and whole frames (C13). Observation outside the scope: the client tests bit 5 (a fragmentation bit) instead of bit 7 to decide whether compressionFlags is present."),
 }
 
 NOT_YET = {}
